@@ -6,6 +6,15 @@
 //!                                            number format -> Cell::get_formatted_value; also checked equal to
 //!                                            helper::number_format::to_formatted_string(value text, pattern)
 //!   c19 txt <hex text> <hex pattern>         text cell -> Cell::get_formatted_value
+//!   c19 cellk <kind> <hex value> <hex code|none>
+//!                                            a cell of every kind of CellRawValue -> Cell::get_formatted_value, the public data
+//!                                            type and whether get_value_number() is Some: `<hex text> <s|n|b|e|-> <num|text>`.
+//!                                            kind = str | rich | lazy | num | bool | err | empty, a trailing `f` = with a formula,
+//!                                            a leading `L` = the cell is saved into a workbook, the workbook read back with
+//!                                            reader::xlsx::lazy_read and the cell taken from the lazily deserialized sheet.
+//!                                            `none` = the cell never got a number format.  Compared with the model's
+//!                                            getFormattedValue (Umya/Model/NumFmtCell.lean).  Oracle: every kind that is not
+//!                                            a number shows get_value() unchanged; a number under General / none its text
 //!   c19 str <hex text> <hex pattern>         helper::number_format::to_formatted_string on an arbitrary string
 //!   c19 id <n> <hex value text>              numeric cell with built-in format id n -> get_formatted_value
 //!   c19 date <n> <f64 bits> <hex value text> the same with the value given by its bit pattern too (the model runs the date
@@ -319,6 +328,174 @@ pub fn exec(out: &mut Out, line: &str) -> (String, bool) {
             }
             match r {
                 Ok(s) => (hex(&s), !text.is_empty()),
+                Err(_) => ("panic".into(), false),
+            }
+        }
+        // a cell of every kind of CellRawValue (the decision of Cell::get_formatted_value)
+        "cellk" if a.len() == 5 => {
+            use umya_spreadsheet::structs::CellRawValue as RV;
+            let kind_full = a[2];
+            let text = String::from_utf8(unhex(a[3])).unwrap();
+            let code: Option<String> = if a[4] == "none" { None } else { Some(String::from_utf8(unhex(a[4])).unwrap()) };
+            let (loaded, kind) = match kind_full.strip_prefix('L') {
+                Some(k) => (true, k),
+                None => (false, kind_full),
+            };
+            let (base, formula) = match kind.strip_suffix('f') {
+                Some(b) if !b.is_empty() => (b, true),
+                _ => (kind, false),
+            };
+            let mut c = Cell::default();
+            match base {
+                "str" => {
+                    c.set_value_string(text.clone());
+                }
+                "rich" => {
+                    // two runs when the text has at least two characters: get_text() concatenates them
+                    let chars: Vec<char> = text.chars().collect();
+                    let cut = chars.len() / 2;
+                    let mut rt = umya_spreadsheet::structs::RichText::default();
+                    for part in [chars[..cut].iter().collect::<String>(), chars[cut..].iter().collect::<String>()] {
+                        if part.is_empty() && !chars.is_empty() {
+                            continue;
+                        }
+                        let mut te = umya_spreadsheet::structs::TextElement::default();
+                        te.set_text(part);
+                        rt.add_rich_text_elements(te);
+                    }
+                    c.set_rich_text(rt);
+                }
+                "lazy" => {
+                    c.set_value_lazy(text.clone());
+                }
+                "num" => match canonical_number(&text) {
+                    Some(f) => {
+                        c.set_value_number(f);
+                    }
+                    None => return ("bad-op".into(), false),
+                },
+                "bool" => match text.as_str() {
+                    "TRUE" => {
+                        c.set_value_bool(true);
+                    }
+                    "FALSE" => {
+                        c.set_value_bool(false);
+                    }
+                    _ => return ("bad-op".into(), false),
+                },
+                "err" => {
+                    c.set_error(text.clone());
+                }
+                "empty" => {
+                    if !text.is_empty() {
+                        return ("bad-op".into(), false);
+                    }
+                    c.set_blank();
+                }
+                _ => return ("bad-op".into(), false),
+            }
+            if formula {
+                c.set_formula("T(B1)");
+            }
+            if let Some(code) = &code {
+                c.get_style_mut().get_number_format_mut().set_format_code(code.clone());
+            }
+            let variant = |c: &Cell| match c.get_raw_value() {
+                RV::String(_) => "str",
+                RV::RichText(_) => "rich",
+                RV::Lazy(_) => "lazy",
+                RV::Numeric(_) => "num",
+                RV::Bool(_) => "bool",
+                RV::Error(_) => "err",
+                RV::Empty => "empty",
+            };
+            // the setters must have produced the kind the request names (set_error goes through guess_typed_data)
+            if variant(&c) != base || c.is_formula() != formula {
+                return ("bad-op".into(), false);
+            }
+            if loaded {
+                // save, read back lazily, take the cell out of the lazily deserialized sheet
+                let path = std::env::temp_dir().join(format!("c19_cellk_{}.xlsx", std::process::id()));
+                let r = guard(|| {
+                    let mut book = umya_spreadsheet::new_file();
+                    let ws = book.get_sheet_mut(&0).unwrap();
+                    let mut cc = c.clone();
+                    cc.get_coordinate_mut().set_coordinate("B2");
+                    ws.set_cell(cc);
+                    umya_spreadsheet::writer::xlsx::write(&book, &path).unwrap();
+                    let mut back = umya_spreadsheet::reader::xlsx::lazy_read(&path).unwrap();
+                    let ws = back.get_sheet_mut(&0).unwrap();
+                    ws.get_cell("B2").cloned()
+                });
+                let _ = std::fs::remove_file(&path);
+                match r {
+                    Ok(Some(cell)) => {
+                        if variant(&cell) != base || cell.is_formula() != formula {
+                            return (format!("reload-changed-kind {} formula={}", variant(&cell), cell.is_formula()), false);
+                        }
+                        c = cell;
+                    }
+                    Ok(None) => return ("reload-lost-cell".into(), false),
+                    Err(_) => return ("panic".into(), false),
+                }
+            }
+            let key = format!("cellk.{}", kind_full);
+            out.count(&key);
+            out.count(match &code {
+                None => "cellk.code.none",
+                Some(c) if c == "General" => "cellk.code.general",
+                Some(_) => "cellk.code.other",
+            });
+            let value = c.get_value().to_string();
+            let is_num = c.get_value_number().is_some();
+            let dt = c.get_data_type().to_string();
+            let r = guard(|| c.get_formatted_value());
+            // oracle on the implementation: what is not a number is shown as get_value() says, whatever the code;
+            // a number under General / no format shows its text
+            let want_kind_text: Option<String> = match base {
+                "str" | "rich" | "err" | "bool" => Some(text.clone()),
+                "lazy" | "empty" => Some(String::new()),
+                _ => None,
+            };
+            match (&r, &want_kind_text) {
+                (Err(_), _) => out.oracle_fail(Fail::new("format-panic").with("op", line).with("value", &text).with("kind", kind_full)),
+                (Ok(got), Some(want)) => {
+                    if got == want && *got == value && !is_num {
+                        out.oracle_ok()
+                    } else {
+                        out.oracle_fail(
+                            Fail::new("text-cell-changed")
+                                .with("op", line)
+                                .with("kind", kind_full)
+                                .with("value", &text)
+                                .with("got", got)
+                                .with("want", want),
+                        )
+                    }
+                }
+                (Ok(got), None) => {
+                    let general = matches!(code.as_deref(), None | Some("General") | Some("@"));
+                    if !is_num {
+                        out.oracle_fail(Fail::new("number-cell-not-number").with("op", line).with("kind", kind_full));
+                    } else if general && *got != text {
+                        out.oracle_fail(
+                            Fail::new("general-number-changed")
+                                .with("op", line)
+                                .with("kind", kind_full)
+                                .with("value", &text)
+                                .with("got", got)
+                                .with("want", &text),
+                        )
+                    } else if general {
+                        out.oracle_ok()
+                    }
+                }
+            }
+            match r {
+                Ok(s) => (
+                    format!("{} {} {}", hex(&s), if dt.is_empty() { "-" } else { dt.as_str() }, if is_num { "num" } else { "text" }),
+                    true,
+                ),
                 Err(_) => ("panic".into(), false),
             }
         }
@@ -872,6 +1049,63 @@ pub fn gen(tier: Tier, seed: u64) -> Vec<String> {
         let s: String = (0..len).map(|_| *rng.pick(&talpha)).collect();
         let p = if rng.chance(1, 2) { "General".to_string() } else { rng.pick(&pats[..]).clone() };
         v.push(op2(if rng.chance(1, 3) { *rng.pick(&["txt", "txtf", "txtr"]) } else { "str" }, &s, &p));
+    }
+    // 4b. the cell-level decision: every kind of CellRawValue, with and without a formula, x codes (incl. no format at all);
+    //     a part of them through a saved workbook read back lazily
+    {
+        let codes: [Option<&str>; 9] =
+            [None, Some("General"), Some("@"), Some("0"), Some("0.00"), Some("#,##0.0"), Some("0%"), Some("0.00E+00"), Some("yyyy-mm-dd")];
+        let ck = |kind: &str, val: &str, code: Option<&str>| {
+            format!("c19 cellk {} {} {}", kind, hex(val), match code { Some(c) => hex(c), None => "none".to_string() })
+        };
+        let texts = ["1.50", "007", "abc", "12345.678", "-0.001", "1e5", "TRUE", "#DIV/0!", "inf", " 42 ", "", "héllo 1,5", "0"];
+        let nums = ["0", "1.5", "-1234.5678", "0.05", "1234567.891", "45435.25", "-0", "2.675", "0.005", "999.995", "1e-7"];
+        let errs = ["#DIV/0!", "#N/A", "#NAME?", "#NULL!", "#NUM!", "#REF!", "#VALUE!", "#DATA!"];
+        for code in codes {
+            for f in ["", "f"] {
+                for t in texts {
+                    for k in ["str", "rich", "lazy"] {
+                        v.push(ck(&format!("{}{}", k, f), t, code));
+                    }
+                }
+                for n in nums {
+                    let n = n.parse::<f64>().unwrap().to_string();
+                    v.push(ck(&format!("num{}", f), &n, code));
+                }
+                for b in ["TRUE", "FALSE"] {
+                    v.push(ck(&format!("bool{}", f), b, code));
+                }
+                for e in errs {
+                    v.push(ck(&format!("err{}", f), e, code));
+                }
+                v.push(ck(&format!("empty{}", f), "", code));
+            }
+        }
+        for val in values.iter().take(if thorough { 2000 } else { 150 }) {
+            let p = rng.pick(&pats[..]).clone();
+            v.push(ck(if rng.chance(1, 2) { "num" } else { "numf" }, val, Some(&p)));
+            v.push(ck(*rng.pick(&["str", "strf", "rich", "richf", "lazy", "lazyf"]), val, Some(&p)));
+        }
+        // lazily loaded workbook (kinds that survive a save unchanged; non-empty values)
+        for code in [None, Some("General"), Some("0.00"), Some("#,##0.0"), Some("0%")] {
+            for t in ["1.50", "007", "abc", "TRUE", "1e5"] {
+                v.push(ck("Lstr", t, code));
+                v.push(ck("Lstrf", t, code));
+                v.push(ck("Lrich", t, code));
+            }
+            for n in ["1.5", "-1234.5678", "0.005", "45435.25"] {
+                v.push(ck("Lnum", n, code));
+                v.push(ck("Lnumf", n, code));
+            }
+            for b in ["TRUE", "FALSE"] {
+                v.push(ck("Lbool", b, code));
+                v.push(ck("Lboolf", b, code));
+            }
+            for e in ["#DIV/0!", "#N/A", "#REF!"] {
+                v.push(ck("Lerr", e, code));
+                v.push(ck("Lerrf", e, code));
+            }
+        }
     }
     // 5. patterns outside the grammar (exploration; the model answers `unmodelled`)
     for p in OTHER_PATTERNS {
